@@ -1,11 +1,11 @@
 (* C08 -- lemmas about the RectClip64 model (model/RectClip.v).
      shortcuts            every vertex in the closed rectangle -> the path is returned unchanged; bounds disjoint -> dropped
-     clip_provenance      every vertex the model emits is a copy of an input vertex that is not outside, a rectangle corner,
-                          a point GetIntersection returned with result true for the input edge it is tagged with, or (tag SX)
-                          the ip2 left behind by a GetIntersection call that returned false -- for EVERY triple of leaf functions;
-                          the heap stages (CheckEdges / TidyEdges / GetPath) never create or alter a point
-     stale_refuted        the SX case does occur with the translated leaf functions: a concrete input whose output contains
-                          the default-constructed point (0,0), far outside the rectangle
+     clip_provenance      every vertex the model emits is a copy of an input vertex that is not outside, a rectangle corner, or
+                          a point GetIntersection returned with result TRUE for the input edge it is tagged with -- for EVERY
+                          triple of leaf functions; the heap stages (CheckEdges / TidyEdges / GetPath) never create or alter a
+                          point.  (Before the repair of the pass-through branch there was a fourth case: the ip2 of a
+                          GetIntersection call that returned false, e.g. Point64() = (0,0) for Rect64(32769433,279593455,
+                          32769434,279593456) and the triangle (109421516,656086942) (-25760342,-7888347) (32769354,279593454).)
      corner_loop_total    the `do { AddCorner(prev, cw); } while (prev != loc)` loops end (within 4 steps) whenever both
                           locations are sides; start_locs_ loop likewise *)
 From Clip Require Import base.Geom base.FloatModel base.CSem gen.Gen_core gen.Gen_rect model.RectLeaf model.RectLines model.RectClip.
@@ -157,7 +157,7 @@ Section Prov.
     match snd tv with
     | SV i => nth_error path i = Some v /\ (in_rect r v \/ fst (getloc v) = false)
     | SI i => exists a b, cseg_at i a b /\ exists loc ip0 l', gi b a loc ip0 = (true, l', v) \/ gi a b loc ip0 = (true, l', v)
-    | SX i => exists a b, cseg_at i a b /\ exists loc ip0 l', gi a b loc ip0 = (false, l', v)
+    | SX _ => False     (* never produced: ip2 is used only when the GetIntersection call that computed it succeeded *)
     | SC k => nth_error (rect_as_path r) k = Some v
     end.
 
@@ -241,36 +241,40 @@ Section Prov.
     destruct (nth_error path i) as [pi|] eqn:Epi; [|discriminate].
     destruct (nth_error path (match i with O => highI path | S j => j end)) as [pp|] eqn:Epp; [|discriminate].
     assert (Hseg : cseg_at i pp pi) by (split; assumption).
-    destruct (gi pi pp loc default_pt) as [[ok cl] ip] eqn:Eg.
-    destruct ok; cbn [negb] in E.
-    2:{ (* remaining outside *)
+    destruct (gi pi pp loc default_pt) as [[ok cl0] ip] eqn:Eg.
+    cbv zeta in E.
+    destruct (if ok && negb (is_inside loc) && negb (is_inside (s_loc s)) then gi pp pi (s_loc s) default_pt else (true, s_loc s, default_pt))
+      as [[ok2 loc2] ip2] eqn:Eg2.
+    destruct (negb (ok && ok2)) eqn:Ecr.
+    { (* remaining outside *)
       destruct (is_inside (s_cross s)).
       - destruct (startloc_loop _ _ _ _ _) as [sl|]; cbn [bind] in E; [|discriminate]. eapply IH; [|exact E]. exact H1.
       - destruct (negb (is_inside (s_loc s)) && negb (loc_eqb (s_loc s) loc)).
         + destruct (corner_loop r loop_fuel (s_loc s) loc _ rs) as [rs'|] eqn:Ec; cbn [bind] in E; [|discriminate].
           eapply IH; [|exact E]. eapply corner_loop_prov; eassumption.
         + eapply IH; [|exact E]. exact H1. }
+    apply negb_false_iff, andb_true_iff in Ecr. destruct Ecr as [-> ->]. cbn [andb negb] in E, Eg2.
     assert (Hip : cprov (ip, SI i)).
-    { unfold cprov; cbn [fst snd]. exists pp, pi. split; [exact Hseg|]. exists loc, default_pt, cl. left. exact Eg. }
-    destruct (is_inside loc).
+    { unfold cprov; cbn [fst snd]. exists pp, pi. split; [exact Hseg|]. exists loc, default_pt, cl0. left. exact Eg. }
+    destruct (is_inside loc) eqn:Eil.
     { (* entering *)
       destruct (is_inside (s_first s)); [eapply IH; [|exact E]; apply add_all_pts; assumption|].
-      destruct (negb (loc_eqb (s_loc s) cl)).
-      - destruct (corner_loop r loop_fuel (s_loc s) cl _ rs) as [rs'|] eqn:Ec; cbn [bind] in E; [|discriminate].
+      destruct (negb (loc_eqb (s_loc s) cl0)).
+      - destruct (corner_loop r loop_fuel (s_loc s) cl0 _ rs) as [rs'|] eqn:Ec; cbn [bind] in E; [|discriminate].
         eapply IH; [|exact E]. apply add_all_pts; [exact Hip|]. eapply corner_loop_prov; eassumption.
       - eapply IH; [|exact E]. apply add_all_pts; assumption. }
-    destruct (negb (is_inside (s_loc s))).
-    { (* passing through *)
-      destruct (gi pp pi (s_loc s) default_pt) as [[ok2 loc2] ip2] eqn:Eg2.
+    cbn [negb andb] in Eg2.
+    destruct (negb (is_inside (s_loc s))) eqn:Eip.
+    { (* passing through: both GetIntersection calls succeeded *)
       destruct (if negb (is_inside (s_cross s)) && negb (loc_eqb (s_cross s) loc2) then add_corner2 r (s_cross s) loc2 rs else Ok rs)
         as [rs1|] eqn:E1; cbn [bind] in E; [|discriminate].
       assert (H2 : all_pts cprov rs1).
       { destruct (negb (is_inside (s_cross s)) && negb (loc_eqb (s_cross s) loc2)); [eapply add_corner2_prov; eassumption|inversion E1; subst; exact H1]. }
-      assert (Hip2 : cprov (ip2, if ok2 then SI i else SX i)).
-      { unfold cprov. destruct ok2; cbn [fst snd]; exists pp, pi; (split; [exact Hseg|]); exists (s_loc s), default_pt, loc2; [right|]; exact Eg2. }
+      assert (Hip2 : cprov (ip2, SI i)).
+      { unfold cprov; cbn [fst snd]. exists pp, pi. split; [exact Hseg|]. exists (s_loc s), default_pt, loc2. right. exact Eg2. }
       destruct (if is_inside (s_first s) then (loc2, s_sl s ++ [s_loc s]) else (s_first s, s_sl s)) as [first sl].
       destruct (pt_eqb ip ip2).
-      - destruct (add_corner2 r cl (snd (getloc pi)) _) as [rs3|] eqn:E3; cbn [bind] in E; [|discriminate].
+      - destruct (add_corner2 r cl0 (snd (getloc pi)) _) as [rs3|] eqn:E3; cbn [bind] in E; [|discriminate].
         eapply IH; [|exact E]. eapply add_corner2_prov; [|exact E3]. apply add_all_pts; assumption.
       - eapply IH; [|exact E]. apply add_all_pts; [exact Hip|]. apply add_all_pts; assumption. }
     (* leaving *)
